@@ -113,6 +113,11 @@ instance : LT ER := ⟨fun a b => match a, b with | .fin x, .fin y => x < y | .f
 instance : DecidableRel (α := ER) (· < ·) := fun a b => by
   cases a <;> cases b <;> simp only [LT.lt] <;> infer_instance
 
+instance : LE ER := ⟨fun a b => match a, b with | .fin x, .fin y => x ≤ y | _, .inf => True | .inf, .fin _ => False⟩
+
+instance : DecidableRel (α := ER) (· ≤ ·) := fun a b => by
+  cases a <;> cases b <;> simp only [LE.le] <;> infer_instance
+
 /-- `min(a, b)` of Python: `b` only if it is strictly smaller -/
 instance : Min ER := ⟨fun a b => if b < a then b else a⟩
 
@@ -171,5 +176,12 @@ def pyDictGet {α : Type} (d : List (Int × α)) (k : Int) : M α :=
 
 /-- `range(a, b, -1)` -/
 def pyRangeDown (a b : Int) : List Int := (List.range (a - b).toNat).map (fun (k : Nat) => a - (k : Int))
+
+/-- the last leaf of a `Sequence` tree (`aux = sequence; while aux.type == 'Function': aux = aux.sequence[-1]` in
+`hrevolve_aux`): with a Sequence as its flattened operation list, the last element; `IndexError` when there is none -/
+def seqLast (s : List PyOp) : M PyOp :=
+  match s.getLast? with
+  | some o => pure o
+  | none => throw .indexError
 
 end Ckpt.Py
